@@ -418,6 +418,16 @@ def observe(root, scn):
                 threading.Thread(target=lambda: (os.write(wfd, data) if data else None, os.close(wfd)), daemon=True).start()
                 sys.stdin = FakeStdin(rfd)
         probe = stack.enter_context(Probe())
+        if scn.get("progress"):
+            # take the progress-bar branch of run_tests (more than PROGRESS_THRESHOLD files and log level <= INFO), as the command-line tool does by default
+            import logging as _lg
+            mlog = _lg.getLogger("bandit.core.manager")
+            old_level = mlog.level
+            mlog.setLevel(_lg.INFO)
+            stack.callback(mlog.setLevel, old_level)
+            devnull = stack.enter_context(open(os.devnull, "w"))
+            stack.enter_context(contextlib.redirect_stderr(devnull))
+            stack.enter_context(contextlib.redirect_stdout(devnull))
         try:
             try:
                 mgr.run_tests()
@@ -843,6 +853,31 @@ def two_faults():
     return out
 
 
+def progress_scenarios():
+    """more than PROGRESS_THRESHOLD (50) files with the log level at INFO: run_tests iterates through the progress tracker — a different
+    loop header from the one every other scenario takes (seeded change C04-m4 tracked the list that skipped files are removed from)"""
+    out = []
+    body = b64(FAULTY_BODY)
+    n = 54
+    for faults in ([(0, "syntax_error")], [(17, "nul_bytes")], [(30, "ENOENT")], [(52, "syntax_error")], [(5, "syntax_error"), (6, "nul_bytes"), (40, "ENOENT")]):
+        files, h = [], 0
+        fpos = dict(faults)
+        target = None
+        for i in range(n):
+            k = fpos.get(i)
+            if k in CONTENT_FAULTS:
+                files.append({"name": "m%02d_content.py" % i, "role": "faulty", "src": b64(CONTENT_FAULTS[k])})
+            elif k is not None:
+                files.append({"name": "m%02d_faulty.py" % i, "role": "faulty", "src": body})
+                target = (i, k)
+            else:
+                files.append({"name": "m%02d_healthy.py" % i, "role": "healthy", "src": {"healthy": h % 3}})
+                h += 1
+        scn = {"files": files, "fault": {"kind": target[1], "target": target[0]} if target else None, "ignore_nosec": False, "progress": True}
+        out.append(("progress:" + "+".join("%s@%d" % (k, i) for i, k in faults), scn))
+    return out
+
+
 def stdin_scenarios():
     out = []
     for n in (1, 2):
@@ -999,6 +1034,11 @@ def _run(res, ctx):
             res.count("two-faults")
             res.case(label, True, sample={"label": label, "files_list": [os.path.basename(p) for p in obs["files_list"]],
                                          "skipped": [[os.path.basename(n), r] for n, r in obs["skipped"]]} if label.endswith("@1+ENOENT@3/N4") else None)
+        # ---- (1c) the progress-bar path (> 50 files, log level INFO)
+        for label, scn in progress_scenarios():
+            ok, obs = run_in_process(res, drv, scratch, scn, label)
+            res.count("progress-path")
+            res.case(label, True)
         # ---- (2) stdin
         for label, scn in stdin_scenarios():
             ok, obs = run_in_process(res, drv, scratch, scn, label)
